@@ -5,12 +5,12 @@
    implicit flush at exit would go unnoticed).                                                  */
 #include "vstd_c.h"
 #include "ghost.h"
-int gh_lc_phase, g_pending, g_bad, g_lost, g_emitted, g_raw_emitted, g_noout, g_load_failed, g_written;
+int gh_lc_phase, g_pending, g_bad, g_failbit, g_lost, g_emitted, g_raw_emitted, g_noout, g_load_failed, g_written;
 int w_abidw_tail(int noout, int do_log, int out_path_empty, int corp_null);
 int w_abilint_main(void);
 int w_abidw_kernel_tail(int noout, int do_log, int out_path_empty);
 #define POST(c) __CPROVER_assert(c, "postcondition: " #c)
-static void fresh(void) {g_pending = 0; g_bad = 0; g_lost = 0; g_emitted = 0; g_raw_emitted = 0; g_noout = 0; g_load_failed = 0; g_written = 0;}
+static void fresh(void) {g_pending = 0; g_bad = 0; g_failbit = 0; g_lost = 0; g_emitted = 0; g_raw_emitted = 0; g_noout = 0; g_load_failed = 0; g_written = 0;}
 
 void h_abidw_tail(void)
 {
